@@ -562,6 +562,20 @@ def histCase : P String := do
           store := store.setIfInBounds s (some { st with sm := { st.sm with vars := Yf }, sc := res.sc })
           outs := outs ++ [s!"{statusStr res.status} {showF res.finalTime} {showStats res.stats} {showMat Yf}"]
         | none => outs := outs ++ ["nostate"]
+      | "solvex" =>
+        let s ← nat; let dt ← flt
+        match store.getD s none with
+        | some st =>
+          -- the other solver's parameters on this State (its scratch keeps the owner's number of stage vectors)
+          let (own, oth) := if st.owner == 0 then (stages, stages2) else (stages2, stages)
+          if integ == 0 && integ2 == 0 && oth ≤ own then
+            let rp := if st.owner == 0 then rosP2 else rosP
+            let res := rosSolve floatOps floatConsts pr.cfg rp st.K st.sm.atol st.sm.rtol dt st.sm.vars st.sc 200000
+            let Yf := clampNonNeg floatOps res.Y
+            store := store.setIfInBounds s (some { st with sm := { st.sm with vars := Yf }, sc := res.sc })
+            outs := outs ++ [s!"{statusStr res.status} {showF res.finalTime} {showStats res.stats} {showMat Yf}"]
+          else outs := outs ++ ["skip"]
+        | none => outs := outs ++ ["nostate"]
       | "dump" =>
         let s ← nat
         match store.getD s none with
